@@ -2,6 +2,7 @@ package sym
 
 import (
 	"fmt"
+	"os"
 	"go/token"
 	"go/types"
 
@@ -66,6 +67,7 @@ type POReplay struct {
 	Target   string   // label of the assertion that must fail ("" for race / witness replays)
 	Hit      bool     // the target assertion failed on a path that consumed the schedule up to it
 	Labels   map[string]bool // labels of all assertions that failed on replay paths
+	NeedViolation bool        // keep exploring data forks until an assertion fails on a complete path
 }
 
 // MemHook: nothing is intercepted, all accesses go to the shared heap.
@@ -266,6 +268,9 @@ func (rp *POReplay) Run(r *Run, prologue *State) {
 		s := r.work[len(r.work)-1]
 		r.work = r.work[:len(r.work)-1]
 		r.runPath(s)
+		if os.Getenv("VERIF_RPDEBUG") != "" && s.Rp != nil {
+			fmt.Fprintf(os.Stderr, "    replay path ended: consumed %d/%d events, best=%d (%s), violations=%d\n", s.Rp.Idx, len(rp.Sched), rp.Best, rp.BestWhy, len(r.Violations)-nv)
+		}
 		if r.Paths >= r.MaxPaths {
 			break
 		}
@@ -278,7 +283,7 @@ func (rp *POReplay) Run(r *Run, prologue *State) {
 				rp.Hit = true
 			}
 		}
-		if rp.Complete {
+		if rp.Complete && (!rp.NeedViolation || len(rp.Labels) > 0) {
 			break
 		}
 	}
